@@ -34,7 +34,7 @@ class _Hang(BaseException):
     pass
 
 
-def _generate_watched(mod, rng, tier, violations, prop, seed):
+def _generate_watched(mod, rng, tier, violations, prop, seed, cap=None):
     """Pull cases out of the generator under a watchdog: if the implementation does not come back from one
     case within VERIF_CASE_TIMEOUT seconds the run reports a hang (termination is part of every property:
     the model is total, so a hang is a model/implementation disagreement with no result to compare)."""
@@ -54,6 +54,8 @@ def _generate_watched(mod, rng, tier, violations, prop, seed):
             except StopIteration:
                 break
             out.append(c)
+            if cap is not None and len(out) >= cap:
+                break
     except _Hang:
         import traceback
         tb = traceback.format_exc()[-1500:]
@@ -146,8 +148,8 @@ def run_property(modname: str, tier: str, seed: int, replay: str | None = None) 
         if hasattr(mod, "search"):
             extra = list(mod.search([cases[i] for i in only_dis[:5]], random.Random(seed + 7919), tier))
         else:
-            extra = list(mod.generate(random.Random(seed + 7919), "thorough" if tier == "quick" else tier))
-            extra = extra[: max(2000, 4 * len(cases))]
+            extra = _generate_watched(mod, random.Random(seed + 7919), "thorough" if tier == "quick" else tier,
+                                      [], prop, seed, cap=getattr(mod, "SEARCH_CAP", max(2000, 4 * len(cases))))
         searched = len(extra)
         if extra:
             r2 = common.run_cases(prop, mod.CORR_MODULE, extra, prelude=prelude, tag="search",
